@@ -20,6 +20,9 @@ func (e ParseError) Error() string {
 	return fmt.Sprintf("%d:%d: %s", e.Pos.Line, e.Pos.Column, e.Message)
 }
 
+// maxQuantityExponent bounds the decimal exponent of a quantity in either direction.
+const maxQuantityExponent = 255
+
 type Parser struct {
 	lexer       *Lexer
 	current     Token
@@ -394,6 +397,13 @@ func (p *Parser) parseAmount() *ast.Amount {
 	qty, err := decimal.NewFromString(numberStr)
 	if err != nil {
 		p.error("invalid number: %s", p.current.Value)
+		return nil
+	}
+	// An exponent is cheap to write and ruinous to compute with: adding 1E99999999 to
+	// any other amount builds an integer of a hundred million digits. hledger keeps at
+	// most 255 decimal places; anything beyond that range is not a quantity.
+	if e := qty.Exponent(); e > maxQuantityExponent || e < -maxQuantityExponent {
+		p.error("number out of range: %s", p.current.Value)
 		return nil
 	}
 	amount.Quantity = qty
